@@ -98,7 +98,12 @@ def run(tier, seed):
             a[3] = dict(kind="sequence", col=1, first=first, stride=4 if first == 3 else 2, count=n // (4 if first == 3 else 2))
             a[4] = dict(kind="single", col=3, first=5, stride=0, count=1)
             large.append(dict(s, t=t, asserts=a, ccols=0, layers=0))
-    scs = [starkgen.scenario(t, i, seed) for i, t in enumerate(stmts + large)]
+    # wide traces opened at many positions: query tables of more than 64 KiB (width >= 254, as many queries as the LDE domain allows up to 60)
+    big = []
+    for s in [x for x in stmts if x["t"]["width"] >= 254][:2 if tier == "quick" else 8]:
+        t = dict(s["t"], q=min(60, 2 ** (s["t"]["ln"] + s["t"]["lb"]) - 1))
+        big.append(dict(s, t=t))
+    scs = [starkgen.scenario(t, i, seed) for i, t in enumerate(stmts + large + big)]
     lowdeg = [sc for sc in scs if starkgen.low_degree(sc)]
     scs = [sc for sc in scs if not starkgen.low_degree(sc)]
     obs = run_scenarios(exe, "complete", scs, wd, "complete_dbg")
